@@ -1,7 +1,8 @@
-"""C06 — UID uniqueness (store-level part)."""
+"""C06 — UID uniqueness (store level and through both front ends)."""
 import json
 from bodies import Tokens
 from storefam import gen_many, run_templates, replay_store
+from httpfam import run_http_templates
 
 AUDIT = "Audit/C06.lean"
 MODULE = "Xandikos.Theorems.C06"
@@ -10,12 +11,14 @@ PROFILE = 'uid'
 
 
 def run(chk):
-    chk.rule = ('random-walk histories over 3-4 .ics names and 3 UIDs drawn from a pool with case/space/escape variants (creates, overwrites that keep or change the UID, deletes, restarts, conditional writes) on all four back ends; a case is one (back end, resolved history); non-trivial = at least two mutating operations')
+    chk.rule = ('random-walk histories over 3-4 .ics names and 3 UIDs drawn from a pool with case/space/escape variants (creates, overwrites that keep or change the UID, deletes, restarts, conditional writes) on all four back ends; a case is one (back end, resolved history); non-trivial = at least two mutating operations; plus HTTP histories (PUT, POST add-member with parameterised content types, DELETE) through both front ends')
     chk.lean_obligations(MODULE, AUDIT)
     toks = Tokens()
     n = 14 if chk.tier == "quick" else 200
     tmpls = gen_many(chk, toks, n, 25 if chk.tier == "quick" else 40, PROFILE)
     run_templates(chk, tmpls, toks, PREFIXES)
+    # the same property through the server: PUT and POST (add-member, content types with parameters)
+    run_http_templates(chk, Tokens(), 4 if chk.tier == "quick" else 40, 30, "mixed", PREFIXES)
 
 
 def replay(chk, path):
